@@ -215,7 +215,10 @@ func execC13(cell c13Cell) *vstat.Outcome {
 	return out
 }
 
-var c13AEs = []string{"", "gzip", "br", "gzip, br", "br, gzip", "deflate", "gzip, deflate, br", "identity", "zstd", "gzip,br", "deflate, gzip"}
+// plain lists of codings, including other tokens that contain the name of a coding, before
+// and after the real one
+var c13AEs = []string{"", "gzip", "br", "gzip, br", "br, gzip", "deflate", "gzip, deflate, br", "identity", "zstd", "gzip,br", "deflate, gzip",
+	"pack200-gzip", "pack200-gzip, gzip", "x-gzip, gzip", "gzip, pack200-gzip", "x-br, br", "gzip-x, br", "brotli", "brotli, br", "x-gzip, x-br", "xbr,xgzip,gzip"}
 
 func TestC13Table(t *testing.T) {
 	rec := vstat.For("C13", t.Name(), "unit")
